@@ -795,3 +795,261 @@ Proof.
       split; [apply same_config_refl|]. split; [exact Hd|]. split; [exact Habs1|].
       do 4 (split; [reflexivity|]). split; [intros _; reflexivity|]. left. auto.
 Qed.
+
+(** * Part 5: one step against the reference, histories *)
+Lemma ref_of_eq d d' : tags_of d' = tags_of d -> counters_of d' = counters_of d -> ref_of d' = ref_of d.
+Proof. unfold ref_of. intros -> ->. reflexivity. Qed.
+
+(* every operation, accepted or rejected, keeps the invariant and the configuration *)
+Lemma dc_step_inv d o : DInv d ->
+  DInv (snd (fst (dc_step d o))) /\ same_config d (snd (fst (dc_step d o))).
+Proof.
+  intros Hd. destruct o as [nbits a counted|nbits a v direct]; unfold dc_step.
+  - destruct (dc_read d nbits a counted) as [[r d'] p] eqn:E. cbn [fst snd].
+    destruct (dc_read_spec _ _ _ _ _ _ _ Hd E) as (Hsc & Hd' & _). auto.
+  - destruct (dc_write d nbits a v direct) as [[e d'] p] eqn:E. cbn [fst snd].
+    destruct direct.
+    + destruct (dc_write_direct_spec _ _ _ _ _ _ _ E) as (Hdc & _ & Hw & Hp & _).
+      unfold DInv, same_config. rewrite Hdc. auto.
+    + destruct (wthrough d) eqn:Hwt.
+      * destruct (dc_write_wt_spec _ _ _ _ _ _ _ Hd Hwt E) as (Hsc & Hd' & _). auto.
+      * destruct (dc_write_wb_spec _ _ _ _ _ _ _ Hd Hwt E) as (Hsc & Hd' & _). auto.
+Qed.
+
+(* an accepted operation is one step of the reference *)
+Lemma dc_step_sim d o d' p : DInv d -> dc_step d o = (true, d', p) ->
+  ref_step (cfg (dc d)) (wthrough d) (penalty d) (ref_of d) (acc_of o) = (ref_of d', p).
+Proof.
+  intros Hd Hs. destruct o as [nbits a counted|nbits a v direct]; unfold dc_step in Hs; cbn [acc_of ref_step].
+  - destruct (dc_read d nbits a counted) as [[r d1] p1] eqn:E.
+    destruct r as [x|e]; [|discriminate]. injection Hs as <- <-.
+    destruct (dc_read_spec _ _ _ _ _ _ _ Hd E) as (_ & _ & [(e & He & _)|(blk & _ & Ht & _ & Hc)]);
+      [discriminate|].
+    unfold ref_of at 2. unfold rd_hit in Hc. cbn [r_dir r_cnt ref_of].
+    destruct counted; destruct Hc as [Hc ->]; rewrite <- Ht, <- Hc; reflexivity.
+  - destruct (dc_write d nbits a v direct) as [[e d1] p1] eqn:E.
+    destruct e as [e|]; [discriminate|]. injection Hs as <- <-.
+    destruct direct.
+    + destruct (dc_write_direct_spec _ _ _ _ _ _ _ E) as (Hdc & Hc & _ & _ & -> & _).
+      rewrite (ref_of_eq d d1); [reflexivity| |exact Hc]. unfold tags_of. rewrite Hdc. reflexivity.
+    + unfold ref_of at 2. cbn [r_dir r_cnt ref_of]. destruct (wthrough d) eqn:Hwt; cbn [negb].
+      * destruct (dc_write_wt_spec _ _ _ _ _ _ _ Hd Hwt E) as (_ & _ & [(_ & _ & _ & He)|(_ & Ht & Hc & ->)]);
+          [discriminate|].
+        unfold dc_hit, rd_hit in *. rewrite <- Ht, <- Hc. reflexivity.
+      * destruct (dc_write_wb_spec _ _ _ _ _ _ _ Hd Hwt E) as (_ & _ & Ht & Hc & ->).
+        unfold dc_hit, rd_hit in *. rewrite <- Ht, <- Hc. reflexivity.
+Qed.
+
+Lemma dc_run_ref d os : DInv d -> all_accepted d os ->
+  dc_run d os = ref_run (cfg (dc d)) (wthrough d) (penalty d) (ref_of d) (map acc_of os).
+Proof.
+  revert d; induction os as [|o t IH]; intros d Hd Hacc; [reflexivity|].
+  cbn [all_accepted] in Hacc. destruct Hacc as [Ha Ht].
+  destruct (dc_step_inv d o Hd) as [Hd' (Hcfg & Hw & Hp)].
+  cbn [dc_run map ref_run].
+  destruct (dc_step d o) as [[acc d'] p] eqn:Es. cbn [fst snd] in *. subst acc.
+  rewrite (dc_step_sim _ _ _ _ Hd Es). cbn [r_cnt ref_of]. f_equal.
+  rewrite (IH d' Hd' Ht), Hcfg, Hw, Hp. reflexivity.
+Qed.
+
+(** ** the initial state *)
+Lemma map_repeat {A B} (f : A -> B) x n : map f (repeat x n) = repeat (f x) n.
+Proof. induction n as [|n IH]; cbn [repeat map]; [reflexivity | rewrite IH; reflexivity]. Qed.
+
+Lemma abs_dir_init {T} g : abs_dir (@cache_init T g) = ref_init g.
+Proof.
+  unfold abs_dir, cache_init, ref_init. cbn [sets]. rewrite map_repeat. f_equal.
+  unfold abs_set, empty_set, ref_init_set. cbn [blocks policy]. rewrite map_repeat. reflexivity.
+Qed.
+
+Definition dc_start (g : ccfg) (wt : bool) (pen : Z) (m : zmap) : dcache :=
+  upd_lower (dcache_init g wt pen) m.
+
+Lemma dinv_init_proof g wt pen m : geom_ok g -> DInv (dc_start g wt pen m).
+Proof. intros Hg. unfold DInv, dc_start. cbn [upd_lower dcache_init dc]. apply cinv_init. exact Hg. Qed.
+
+Lemma ref_of_init g wt pen m : ref_of (dc_start g wt pen m) = rcache_init g.
+Proof.
+  unfold ref_of, rcache_init, tags_of, counters_of, dc_start.
+  cbn [upd_lower dcache_init dc hits accesses lasthit]. rewrite abs_dir_init. reflexivity.
+Qed.
+
+Lemma dinv_after d os : DInv d -> DInv (dc_after d os) /\ same_config d (dc_after d os).
+Proof.
+  revert d; induction os as [|o t IH]; intros d Hd; cbn [dc_after]; [split; [exact Hd | apply same_config_refl]|].
+  destruct (dc_step_inv d o Hd) as [Hd' (Hcfg & Hw & Hp)].
+  destruct (IH _ Hd') as [Hd'' (Hcfg' & Hw' & Hp')]. split; [exact Hd''|].
+  unfold same_config. repeat split; congruence.
+Qed.
+
+(* C09.3 *)
+Lemma counters_match_reference_proof g wt pen m os : geom_ok g ->
+  all_accepted (dc_start g wt pen m) os ->
+  dc_run (dc_start g wt pen m) os = ref_run g wt pen (rcache_init g) (map acc_of os).
+Proof.
+  intros Hg Hacc. rewrite (dc_run_ref _ _ (dinv_init_proof g wt pen m Hg) Hacc), ref_of_init.
+  reflexivity.
+Qed.
+
+(** * Part 6: packaged statements for Props/C09.v *)
+Section Packaged.
+  Variables (d : dcache) (nbits a : Z).
+  Let g := cfg (dc d).
+  Let idx := ref_idx g a.
+  Let tag := ref_tag g a.
+  Let hit := ref_lookup (tags_of d) idx tag.
+
+  (* C09.1 *)
+  Lemma dir_refines_read_proof counted x d' p : DInv d ->
+    dc_read d nbits a counted = (Ok x, d', p) -> tags_of d' = ref_touch true (tags_of d) idx tag.
+  Proof.
+    intros Hd E. destruct (dc_read_spec _ _ _ _ _ _ _ Hd E) as (_ & _ & [(e & He & _)|(blk & _ & Ht & _)]);
+      [discriminate | exact Ht].
+  Qed.
+
+  Lemma dir_refines_write_proof v d' p : DInv d ->
+    dc_write d nbits a v false = (None, d', p) ->
+    tags_of d' = ref_touch (negb (wthrough d)) (tags_of d) idx tag.
+  Proof.
+    intros Hd E. destruct (wthrough d) eqn:Hwt; cbn [negb].
+    - destruct (dc_write_wt_spec _ _ _ _ _ _ _ Hd Hwt E) as (_ & _ & [(_ & _ & _ & He)|(_ & Ht & _)]);
+        [discriminate | exact Ht].
+    - destruct (dc_write_wb_spec _ _ _ _ _ _ _ Hd Hwt E) as (_ & _ & Ht & _). exact Ht.
+  Qed.
+
+  Lemma hit_decision_proof blk h d1 : DInv d ->
+    dc_read_block d (cdecode (dc d) a) = (Ok (blk, h), d1) -> h = hit.
+  Proof.
+    intros Hd E. destruct (dc_read_block_spec _ _ _ _ Hd E) as (_ & _ & _ & Hh & _).
+    subst hit idx tag g. rewrite Hh, lookup_of_ref, (cdecode_idx _ a Hd), (cdecode_tag _ a Hd). reflexivity.
+  Qed.
+
+  (* C09.2 *)
+  Lemma counters_read_counted_proof x d' p : DInv d ->
+    dc_read d nbits a true = (Ok x, d', p) ->
+    hits d' = hits d + (if hit then 1 else 0) /\ accesses d' = accesses d + 1 /\
+    lasthit d' = hit /\ p = (if hit then 0 else penalty d).
+  Proof.
+    intros Hd E. destruct (dc_read_spec _ _ _ _ _ _ _ Hd E) as (_ & _ & [(e & He & _)|(blk & _ & _ & _ & Hc & Hp)]);
+      [discriminate|].
+    unfold counters_of, count, rd_hit in Hc. injection Hc as -> -> ->. auto.
+  Qed.
+
+  Lemma counters_read_uncounted_proof x d' p : DInv d ->
+    dc_read d nbits a false = (Ok x, d', p) ->
+    hits d' = hits d /\ accesses d' = accesses d /\ lasthit d' = lasthit d /\ p = 0.
+  Proof.
+    intros Hd E. destruct (dc_read_spec _ _ _ _ _ _ _ Hd E) as (_ & _ & [(e & He & _)|(blk & _ & _ & _ & Hc & Hp)]);
+      [discriminate|].
+    unfold counters_of in Hc. injection Hc as -> -> ->. auto.
+  Qed.
+
+  Lemma counters_write_proof v d' p : DInv d ->
+    dc_write d nbits a v false = (None, d', p) ->
+    hits d' = hits d + (if hit then 1 else 0) /\ accesses d' = accesses d + 1 /\
+    lasthit d' = hit /\ p = (if hit then 0 else penalty d).
+  Proof.
+    intros Hd E. destruct (wthrough d) eqn:Hwt.
+    - destruct (dc_write_wt_spec _ _ _ _ _ _ _ Hd Hwt E) as (_ & _ & [(_ & _ & _ & He)|(_ & _ & Hc & Hp)]);
+        [discriminate|].
+      unfold counters_of, count, dc_hit, rd_hit in Hc. injection Hc as -> -> ->. auto.
+    - destruct (dc_write_wb_spec _ _ _ _ _ _ _ Hd Hwt E) as (_ & _ & _ & Hc & Hp).
+      unfold counters_of, count, dc_hit, rd_hit in Hc. injection Hc as -> -> ->. auto.
+  Qed.
+
+  Lemma direct_write_proof v e d' p : dc_write d nbits a v true = (e, d', p) ->
+    dc d' = dc d /\ hits d' = hits d /\ accesses d' = accesses d /\ lasthit d' = lasthit d /\
+    p = 0 /\ mem_write rv_memcfg (lower d) nbits a v = (lower d', e).
+  Proof.
+    intros E. destruct (dc_write_direct_spec _ _ _ _ _ _ _ E) as (Hdc & Hc & _ & _ & Hp & Hm).
+    unfold counters_of in Hc. injection Hc as -> -> ->. repeat split; assumption.
+  Qed.
+
+  Lemma config_constant_proof (o : dop) : DInv d ->
+    let d' := snd (fst (dc_step d o)) in
+    DInv d' /\ cfg (dc d') = cfg (dc d) /\ wthrough d' = wthrough d /\ penalty d' = penalty d.
+  Proof. intros Hd. apply dc_step_inv. exact Hd. Qed.
+
+  (* C09.4 *)
+  Lemma rejected_wt_crossing_proof v : wthrough d = true ->
+    crosses nbits (cdecode (dc d) a) = true ->
+    dc_write d nbits a v false =
+      (Some (EOffset (da_byoff (cdecode (dc d) a)) (if nbits =? 16 then 2 else 0)), d, 0).
+  Proof.
+    intros Hwt Hc. unfold dc_write. rewrite Hwt. unfold crosses in Hc.
+    destruct ((nbits =? 16) && (da_byoff (cdecode (dc d) a) >? 2)) eqn:E16.
+    - apply andb_true_iff in E16. destruct E16 as [-> _]. reflexivity.
+    - cbn [orb] in Hc. rewrite Hc. apply andb_true_iff in Hc. destruct Hc as [E _].
+      apply Z.eqb_eq in E. subst nbits. reflexivity.
+  Qed.
+
+  Lemma wt_write_effects_proof v e d' p : DInv d -> wthrough d = true ->
+    crosses nbits (cdecode (dc d) a) = false ->
+    dc_write d nbits a v false = (e, d', p) ->
+    tags_of d' = ref_touch false (tags_of d) idx tag /\
+    counters_of d' = count (counters_of d) hit /\ p = miss_penalty (penalty d) hit.
+  Proof.
+    intros Hd Hwt Hc E.
+    destruct (dc_write_wt_spec _ _ _ _ _ _ _ Hd Hwt E) as (_ & _ & [(Hc' & _)|(_ & H)]);
+      [congruence | exact H].
+  Qed.
+
+  Lemma read_effects_proof counted r d' p : DInv d -> dc_read d nbits a counted = (r, d', p) ->
+    (exists e, r = Err e /\ d' = d /\ p = 0 /\ hit = false) \/
+    (exists blk, r = from_block nbits (cdecode (dc d) a) blk /\
+       tags_of d' = ref_touch true (tags_of d) idx tag /\
+       (hit = true -> lower d' = lower d) /\
+       if counted
+       then counters_of d' = count (counters_of d) hit /\ p = miss_penalty (penalty d) hit
+       else counters_of d' = counters_of d /\ p = 0).
+  Proof. intros Hd E. apply (dc_read_spec _ _ _ _ _ _ _ Hd E). Qed.
+
+  Lemma rejected_wb_proof v e d' p : DInv d -> wthrough d = false ->
+    dc_write d nbits a v false = (Some e, d', p) ->
+    tags_of d' = ref_touch false (tags_of d) idx tag /\
+    counters_of d' = counters_of d /\ p = 0 /\ lower d' = lower d /\
+    map blocks (sets (dc d')) = map blocks (sets (dc d)) /\
+    (hit = false -> d' = d) /\
+    ((hit = false /\
+      read_words (lower d) (da_balign (cdecode (dc d) a)) (block_words d) = Err e) \/
+     (exists blk, into_block nbits (cdecode (dc d) a) blk v = Err e)).
+  Proof. intros Hd Hwt E. apply (dc_write_wb_spec _ _ _ _ _ _ _ Hd Hwt E). Qed.
+End Packaged.
+
+(* the byte offset the lane checks look at *)
+Lemma byoff_mod4 {T} (c : cache T) a : da_byoff (cdecode c a) = (a mod 2 ^ 32) mod 4.
+Proof. unfold cdecode, decode_addr. cbn [da_byoff]. change 3 with (2 ^ 2 - 1). rewrite land_ones_mod by lia. reflexivity. Qed.
+
+Lemma DInv_meaning_proof : forall d,
+  DInv d <->
+  let g := cfg (dc d) in
+  0 <= ibits g /\ 0 <= bbits g /\ 1 <= assoc g /\
+  length (sets (dc d)) = Z.to_nat (2 ^ ibits g) /\
+  Forall (fun s => length (blocks s) = Z.to_nat (assoc g) /\
+                   match policy s with
+                   | LRU o => NoDup o /\ forall x, In x o <-> 0 <= x < assoc g
+                   | PLRU n _ => n = assoc g /\ exists k : nat, assoc g = 2 ^ Z.of_nat k
+                   end) (sets (dc d)).
+Proof. intros d. reflexivity. Qed.
+
+Lemma dinv_reachable_proof g wt pen m os : geom_ok g ->
+  let d := dc_after (dc_start g wt pen m) os in
+  DInv d /\ cfg (dc d) = g /\ wthrough d = wt /\ penalty d = pen.
+Proof.
+  intros Hg d. destruct (dinv_after _ os (dinv_init_proof g wt pen m Hg)) as [Hd (H1 & H2 & H3)].
+  fold d in Hd, H1, H2, H3. auto.
+Qed.
+
+Lemma decode_agrees_proof d a : DInv d ->
+  da_idx (cdecode (dc d) a) = ref_idx (cfg (dc d)) a /\
+  da_tag (cdecode (dc d) a) = ref_tag (cfg (dc d)) a /\
+  da_byoff (cdecode (dc d) a) = (a mod 2 ^ 32) mod 4 /\
+  0 <= ref_idx (cfg (dc d)) a < 2 ^ ibits (cfg (dc d)).
+Proof.
+  intros Hd. split; [apply cdecode_idx; exact Hd|]. split; [apply cdecode_tag; exact Hd|].
+  split; [apply byoff_mod4|]. apply ref_idx_range. apply Hd.
+Qed.
+
+Lemma crosses_meaning_proof nbits da :
+  crosses nbits da = true <-> (nbits = 16 /\ da_byoff da > 2) \/ (nbits = 32 /\ da_byoff da <> 0).
+Proof. unfold crosses. lia. Qed.
